@@ -122,7 +122,7 @@ def finish(prop, tier, seed, results, bounded, findings, wall, write=True):
             fault.append(f"{b['name']}: bounded check crashed\n{b['crash']}"); continue
         b_cases += b['cases']; b_distinct += b.get('distinct', b['cases'])
         b_summ.append({k: b[k] for k in ('name', 'scope', 'cases', 'exhaustive', 'known', 'notes', 'reported') if k in b} | {'failures': len(b['failures'])})
-        for f in b['failures']:
+        for f in b['failures'][:5]:
             violations.append(dict(kind='B', obligation=b['name'], check=b['name'], case=f.get('case'), replay={k: v for k, v in f.items() if k != 'case'}))
         for smp in b.get('samples', [])[:2]:
             if len(samples) < 10: samples.append(dict(kind='bounded-case', check=b['name'], case=smp))
